@@ -379,3 +379,6 @@ from harness import schemaleak as _sl          # noqa: E402
 from harness.mixins import add_family as _add_family   # noqa: E402
 _add_family(globals(), _ss, 'structstep', lambda case, impl: _ss.oracle(case, impl, who=('viewer', 'census')), share=0.06)
 _add_family(globals(), _sl, 'schemaleak', lambda case, impl: _sl.oracle(case, impl, who=('views',)), share=0.04)
+
+from harness import storeinit as _si                    # noqa: E402
+_add_family(globals(), _si, 'storeinit', _si.oracle, share=0.05)
